@@ -35,13 +35,16 @@ def exW : VarDecl := ⟨"w", "person", .bool, .week, false, .bool false⟩
 def exN : VarDecl := ⟨"n", "person", .str, .month, true, .str ""⟩
 def exSys : System := ⟨exPerson, [exHousehold], [exF, exE, exH, exW, exN]⟩
 
-/-- two persons; households `h1` (both persons) and `h2` (a trailing empty group); a monthly
+/-- two persons; households `h1` (both persons, with explicitly assigned positions `[1, 0]`:
+    the reference person is listed second, so the positions are *not* the order of appearance
+    `[0, 1]`) and `h2` (a trailing empty group); a monthly
     float, an eternal enum, a rolling-year group variable kept on disk, a weekly boolean -/
+def exHouseholdPop : Pop :=
+  { entity := exHousehold, ids := ["h1", "h2"], count := 2, membersEntityId := [0, 0],
+    membersRole := [.role ⟨"parent", 0⟩, .role ⟨"child", 1⟩], membersPosition := [1, 0] }
+
 def exSim : Sim :=
-  { pops := [
-      { entity := exPerson, ids := ["a", "b"], count := 2 },
-      { entity := exHousehold, ids := ["h1", "h2"], count := 2, membersEntityId := [0, 0],
-        membersRole := [.role ⟨"parent", 0⟩, .role ⟨"child", 1⟩], membersPosition := [0, 1] }],
+  { pops := [{ entity := exPerson, ids := ["a", "b"], count := 2 }, exHouseholdPop],
     holders := [
       { var := exF, mem := [(⟨.month, ⟨2018, 1, 1⟩, 1⟩, .plain (.floats [3, 1/4]))] },
       { var := exE, mem := [(Period.eternity, .enum exCol [2, 0])] },
@@ -180,6 +183,48 @@ theorem C19_roundtrip (sys : System) (s : Sim) (hd : Dumpable sys s) (fs : FS)
 
 example : exSim.knows "hy" ⟨.year, ⟨2018, 3, 1⟩, 1⟩ = true ∧
     exSim.read "hy" ⟨.year, ⟨2018, 3, 1⟩, 1⟩ = some (.plain (.ints [5, 7])) := by decide
+
+/-- **Structure, field by field.** Every group population comes back with the same entity,
+    identifiers, count, `members_entity_id`, role objects and `members_position`. Positions are
+    a component of their own: the statement holds for *arbitrary* positions (no relation to the
+    memberships is assumed — `Dumpable` does not mention them), in particular for positions
+    assigned from a survey's own ranking that differ from the order of appearance
+    (`defaultPositions`), which the engine's `value_from_first_person` / `value_nth_person`
+    read. -/
+theorem C19_structure_fields (sys : System) (s : Sim) (hd : Dumpable sys s) (fs : FS)
+    (hfs : dump s = .ok fs) :
+    ∃ r, restore sys fs = .ok r ∧
+      ∀ pop ∈ s.pops, pop.entity.isPerson = false →
+        ∃ pop' ∈ r.pops, pop'.entity = pop.entity ∧ pop'.ids = pop.ids ∧ pop'.count = pop.count ∧
+          pop'.membersEntityId = pop.membersEntityId ∧ pop'.membersRole = pop.membersRole ∧
+          pop'.membersPosition = pop.membersPosition := by
+  refine ⟨s.reloaded, hd.restore_eq fs hfs, ?_⟩
+  intro pop hp hg
+  exact ⟨pop.normal, List.mem_map.2 ⟨pop, hp, rfl⟩, (hd.pop_ok pop hp).normal_fields hg⟩
+
+/-- the example's positions are not the order of appearance, and they come back unchanged -/
+example : (∀ pop ∈ exSim.pops, pop.entity.key = "household" →
+      pop.membersPosition = [1, 0] ∧ defaultPositions pop.membersEntityId = [0, 1]) ∧
+    (∀ pop ∈ exSim.reloaded.pops, pop.entity.key = "household" → pop.membersPosition = [1, 0]) := by
+  decide
+
+/-- For *every* directory: the positions and the memberships of a restored group population
+    are the contents of `members_position.npy` and `members_entity_id.npy`, each read from its
+    own file — neither is recomputed from the other (an implementation that re-derived the
+    positions from the memberships in order of appearance would lose assigned positions). -/
+theorem C19_positions_from_file (fs : FS) (e : EntityDecl) (pop : Pop) (hg : e.isPerson = false)
+    (h : restoreEntity fs e = .ok pop) :
+    ∃ d, alookup e.key fs.ents = some d ∧
+      readInts d "members_position.npy" = .ok pop.membersPosition ∧
+      readInts d "members_entity_id.npy" = .ok pop.membersEntityId := by
+  obtain ⟨d, h1, _, h3, h4⟩ := restoreEntity_files fs e pop hg h
+  exact ⟨d, h1, h3, h4⟩
+
+example : ∃ fs pop, dump exSim = .ok fs ∧ restoreEntity fs exHousehold = .ok pop ∧
+    pop.membersPosition = [1, 0] ∧ pop.membersPosition ≠ defaultPositions pop.membersEntityId := by
+  refine ⟨_, exHouseholdPop.normal, exSim_dumpable.dump_eq, ?_, ?_⟩
+  · exact restoreEntity_entityFiles _ exHouseholdPop (by decide)
+  · decide
 
 /-- The restored simulation knows no `(variable, period)` the original did not. -/
 theorem C19_no_extra (sys : System) (s : Sim) (hd : Dumpable sys s) (fs : FS) (r : Sim)
